@@ -23,6 +23,16 @@ BUDGET = {
     "C19": {"quick": 480_000, "thorough": 8_000_000},
 }
 
+# sensitivity runs may scale the budgets down (never used by the registered commands)
+try:
+    _SCALE = float(os.environ.get("TZSIM_BUDGET_SCALE", "1"))
+except ValueError:
+    _SCALE = 1.0
+if _SCALE != 1.0:
+    for _p in BUDGET:
+        for _t in BUDGET[_p]:
+            BUDGET[_p][_t] = max(1600, int(BUDGET[_p][_t] * _SCALE))
+
 COMPONENTS = {
     "real": ["the whole tz-rs crate built from /repo's working tree", "std threads (one OS thread per simulated client/installer/environment actor)", "the process environment (TZ, TZDIR, LANG, LC_ALL really set/unset)", "the system allocator underneath the counting wrapper"],
     "stub": ["filesystem: in-memory SimFs behind TimeZoneSettings' read function", "clock: simulated reading through the cfg(tz_rs_verif) hook", "scheduler: baton passed at operation boundaries and inside the read seam, decided by the scenario", "installer / zic: the harness's independent TZif writer and typed-corruption catalogue"],
@@ -62,6 +72,8 @@ class Ctx:
         self.stats = []
         self.notes = []
         self.extra = {}
+        self.unconfirmed = []
+        self.confirmed_oracles = set()
 
 
 def build_tzsim(verif, profile="release"):
@@ -113,7 +125,7 @@ def read_crumb(path):
         return None, None, False
 
 
-def run_workers(ctx, jobs, hang_cpu_s=120):
+def run_workers(ctx, jobs, hang_cpu_s=25):
     """jobs: list of dict(argv, crumb, label, kind, first, count). Runs up to NPROC at a time.
     Returns list of dict(job, rc, died_at)."""
     pending = list(jobs)
@@ -175,18 +187,21 @@ def handle_deaths(ctx, results):
         if "HARNESS PANIC" in (r.get("output") or ""):
             ctx.harness_errors.append(f"worker {j['label']}/{j['worker']}: {r['output'][-400:].strip()} (near scenario index {r['died_at']})")
             continue
-        if j["kind"] != "run" or r["died_at"] is None:
+        if j["kind"] not in ("run", "sweep") or r["died_at"] is None:
             ctx.harness_errors.append(f"worker {j['label']}/{j['worker']} {what}; output: {r['output'][-600:]}")
             continue
         idx = r["died_at"]
         # regenerate that scenario, write it as a replay file and confirm it kills a fresh process too
-        rc, text = sh([ctx.tzsim, "genidx", j["prop"], str(ctx.seed), str(idx)])
+        if j["kind"] == "sweep":
+            rc, text = sh(j["argv"] + ["--emit-crumb", str(idx)])
+        else:
+            rc, text = sh([ctx.tzsim, "genidx", j["prop"], str(ctx.seed), str(idx)])
         if rc != 0:
             ctx.harness_errors.append(f"cannot regenerate scenario index {idx}: {text[-300:]}")
             continue
         os.makedirs(ctx.replays, exist_ok=True)
         oracle = "C07.hang" if r.get("hang") else ("C07.alloc_cap" if r.get("cap") else "C07.abort")
-        path = os.path.join(ctx.replays, f"{j['prop']}-crash-{idx}.scn")
+        path = os.path.join(ctx.replays, f"{j['prop']}-crash-{j['label']}-{idx}.scn")
         with open(path, "w") as f:
             f.write(f"# property {j['prop']}\n# oracle {oracle}\n# signature worker-died\n# detail worker {what} while executing scenario index {idx}" + (f" (allocation request of {r['cap']} bytes refused)" if r.get("cap") else "") + "\n")
             f.write(text)
@@ -263,7 +278,7 @@ def confirm_replay(ctx, f):
             return False
         return p.returncode == 1
     try:
-        p = subprocess.run([ctx.tzsim, "replay", path, "--quiet"], env=env(), stdout=subprocess.PIPE, stderr=subprocess.STDOUT, text=True, timeout=300)
+        p = subprocess.run([ctx.tzsim, "replay", path, "--quiet"], env=env(), stdout=subprocess.PIPE, stderr=subprocess.STDOUT, text=True, timeout=45 if f.get("crash") else 300)
     except subprocess.TimeoutExpired:
         return bool(f.get("crash"))
     if f.get("crash"):
@@ -276,26 +291,40 @@ def report(ctx):
     known = load_known(ctx.verif)
     by_key = {}
     for f in ctx.found:
-        key = (f["oracle"], f["sig"])
-        if key not in by_key or (f.get("replay") and not by_key[key].get("replay")):
-            by_key.setdefault(key, f)
-            if f.get("replay"):
-                by_key[key] = f
+        by_key.setdefault((f["oracle"], f["sig"]), []).append(f)
     violations = 0
     printed_known = set()
-    for (oracle, sig), f in sorted(by_key.items()):
+    for (oracle, sig), cands in sorted(by_key.items()):
         k = next((k for k in known if k.get("oracle") == oracle and k.get("sig") == sig and k.get("property") == ctx.prop), None)
         if k is not None:
             if (oracle, sig) not in printed_known:
                 print(f"KNOWN-FINDING: property={ctx.prop} {k['what']}")
                 printed_known.add((oracle, sig))
             continue
-        if not confirm_replay(ctx, f):
-            ctx.harness_errors.append(f"finding {oracle} {sig} did not reproduce from its replay file {f.get('replay')}: {f['detail'][:300]}")
+        # the same oracle may already have been reported under another signature with a confirmed replay
+        confirmed = None
+        tried = 0
+        for f in cands:
+            if not f.get("replay"):
+                continue
+            tried += 1
+            if confirm_replay(ctx, f):
+                confirmed = f
+                break
+            if tried >= 6:
+                break
+        if confirmed is None:
+            ctx.unconfirmed.append((oracle, sig, cands[0]["detail"][:300], tried))
             continue
         violations += 1
-        print(f"violated oracle {oracle} ({sig}): {f['detail'][:1000]}")
-        print(f"VIOLATION property={ctx.prop} replay={f['replay']}")
+        ctx.confirmed_oracles.add(oracle)
+        print(f"violated oracle {oracle} ({sig}): {confirmed['detail'][:1000]}")
+        print(f"VIOLATION property={ctx.prop} replay={confirmed['replay']}")
+    for (oracle, sig, detail, tried) in ctx.unconfirmed:
+        if oracle in ctx.confirmed_oracles:
+            # same oracle confirmed under another signature: this one is a variant without its own replay
+            continue
+        ctx.harness_errors.append(f"finding {oracle} {sig} has no replay file that reproduces in a fresh process ({tried} tried): {detail}")
     return violations
 
 
@@ -403,6 +432,8 @@ def run_check(verif, prop, tier):
         return 2
     agg, rule, assumptions, extra = PLANS[prop](ctx)
     violations = report(ctx)
+    if agg.get("recheck_mismatch", 0) and not violations:
+        ctx.harness_errors.append(f"{agg['recheck_mismatch']} scenario(s) gave a different history when executed a second time in the same process, and no oracle explains it")
     path = write_evidence(ctx, agg, rule, violations, extra, assumptions)
     wall = time.time() - ctx.t0
     print(f"{prop} {tier}: {agg['evaluations']} evaluations, {agg.get('merge', {}).get('nontrivial_distinct', 0)} distinct non-trivial, {violations} violation(s), {len(ctx.harness_errors)} harness error(s), {wall:.1f}s; evidence {path}")
